@@ -642,6 +642,32 @@ class ScriptGen:
                     yield ('e', b'\xac', [s2, pub], 0, 'opnd-%s-shortsig%s-eval' % (name, s2.hex()))
                     yield ('v', push(s2), push(pub) + b'\xac', 0, 'opnd-%s-shortsig%s' % (name, s2.hex()))
 
+    # ---- P2SH with degenerate / rare but legal redeem scripts ---------------------------------------
+    def p2sh_degenerate(self):
+        """[(scriptSig, scriptPubKey, mask, tag)], no randomness: redeemScript in {empty, every 1-byte script, every
+        1-opcode program (pushes with their data, truncated pushes), OP_DEPTH-based, a bare push, 520 bytes (the longest
+        that can be pushed), 521 bytes (cannot be pushed)} x scriptSig prefixes leaving {nothing, a true item, a false
+        item, two items} below the redeem push x flags {P2SH, P2SH|CLEANSTACK, none}; scriptPubKey = HASH160
+        <hash160(redeem)> EQUAL computed here; and the same scripts as plain scriptPubKeys with an empty scriptSig."""
+        H160 = self.C.Hash160
+        redeems = [(b'', 'empty')] + [(p_, 'op' + p_.hex()[:12]) for p_ in self.one_op_programs()]
+        redeems += [(b'\x74', 'depth'), (b'\x74\x51\x87', 'depth-is-1'), (b'\x74\x52\x87', 'depth-is-2'),
+                    (b'\x74\x00\x87', 'depth-is-0'), (b'\x74\x75', 'depth-drop'), (b'\x75', 'drop'), (b'\x75\x75', 'drop2'),
+                    (push(b'\x07' * 20), 'bare-push'), (b'\x00\x00', 'two-empty'), (b'\x51\x51', 'two-true'),
+                    (b'\x4d\x05\x02' + b'\x01' * 517, 'len520'), (b'\x4d\x06\x02' + b'\x01' * 518, 'len521'),
+                    (b'\x61' * 201 + b'\x51', 'ops201'), (b'\x61' * 202 + b'\x51', 'ops202')]
+        prefixes = [(b'', 'none'), (b'\x51', 'true'), (b'\x00', 'false'), (b'\x51\x51', 'two'), (b'\x00\x51', 'false-true')]
+        out = []
+        for (redeem, rname) in redeems:
+            spk = b'\xa9' + push(H160(redeem)) + b'\x87'
+            for (pre, pname) in prefixes:
+                for mask in (1, 5, 0):
+                    out.append((pre + push(redeem), spk, mask, 'p2sh-degenerate-%s-%s' % (rname, pname)))
+            for mask in (0, 1):
+                out.append((b'', redeem, mask, 'degenerate-spk-%s' % rname))
+                out.append((b'\x51', redeem, mask, 'degenerate-spk-%s-true' % rname))
+        return out
+
     # ---- VerifyScript pairs -------------------------------------------------------------------
     def verify_pairs(self, rng, ti, idx):
         """[(scriptSig, scriptPubKey, tag)]"""
@@ -1305,6 +1331,13 @@ class C06(Prop, ScriptGen):
                 if i % nshards != shard:
                     continue
                 yield self.vf(sg_, spk_, mask, ti, idx, tag=tag)
+        # P2SH with degenerate redeem scripts (exhaustive over the 1-opcode redeem scripts), and the same as scriptPubKeys
+        i = 0
+        for (sg_, spk_, mask, tag) in self.p2sh_degenerate():
+            i += 1
+            if i % nshards != shard:
+                continue
+            yield self.vf(sg_, spk_, mask, 1, 1, tag=tag)
         # (f) SEQUENCE cases (histories of calls in one process)
         i = 0
         for rep in range(3 if big else 1):
